@@ -692,12 +692,18 @@ func miceInst(c *core.Ctx, label string) *inst {
 		payload = c.BytesN(label+".payload", c.PickInt(label+".largeLen", 65535, 65536, 70000, 100000, 140000))
 		rs = c.PickInt(label+".largeRS", 4096, 16384, 100)
 	}
+	// the payload is one resource inside a larger shared buffer (its neighbours follow
+	// it in the same backing array): nothing outside or inside it may be written
+	whole := payload
+	if from := c.Int(label+".sub.from", 0, len(whole)); c.Bool(label + ".sub") {
+		payload = whole[from:c.Int(label+".sub.to", from, len(whole))]
+	}
 	in := &inst{name: label + ":mice.Encode", writer: true}
 	in.run = func(w io.Writer) error {
 		_, err := enc.Encode(w, payload, rs)
 		return err
 	}
-	in.sharedHash = func() uint64 { return fnvOf(payload[:cap(payload)]) }
+	in.sharedHash = func() uint64 { return fnvOf(whole[:cap(whole)]) }
 	in.variant = func(c *core.Ctx) *inst {
 		p2 := append([]byte(nil), payload...)
 		return &inst{name: in.name, writer: true, run: func(w io.Writer) error { _, err := enc.Encode(w, p2, rs); return err }}
